@@ -100,6 +100,16 @@ enum Phase<F> {
     Failed,
 }
 
+/// Runs an observer callback. Neither a panic in it nor a panic while dropping
+/// its panic payload (`panic_any` with a value whose `Drop` panics) may change
+/// the call's outcome.
+#[cfg(feature = "tracing")]
+fn observe(callback: impl FnOnce()) {
+    if let Err(payload) = std::panic::catch_unwind(std::panic::AssertUnwindSafe(callback)) {
+        let _ = std::panic::catch_unwind(std::panic::AssertUnwindSafe(move || drop(payload)));
+    }
+}
+
 impl<S, Request> Future for ReconnectFuture<S, Request>
 where
     S: Service<Request>,
@@ -121,13 +131,12 @@ where
                             #[cfg(feature = "tracing")]
                             if let Some(ref callback) = this.config.on_state_change {
                                 // Callbacks only observe: a panic in one must not change the call's outcome
-                                let _ =
-                                    std::panic::catch_unwind(std::panic::AssertUnwindSafe(|| {
-                                        callback(
-                                            crate::state::ConnectionState::Reconnecting,
-                                            crate::state::ConnectionState::Connected,
-                                        );
-                                    }));
+                                observe(|| {
+                                    callback(
+                                        crate::state::ConnectionState::Reconnecting,
+                                        crate::state::ConnectionState::Connected,
+                                    );
+                                });
                             }
                             return Poll::Ready(Ok(response));
                         }
@@ -144,13 +153,12 @@ where
                             #[cfg(feature = "tracing")]
                             if let Some(ref callback) = this.config.on_state_change {
                                 // Callbacks only observe: a panic in one must not change the call's outcome
-                                let _ =
-                                    std::panic::catch_unwind(std::panic::AssertUnwindSafe(|| {
-                                        callback(
-                                            crate::state::ConnectionState::Connected,
-                                            crate::state::ConnectionState::Disconnected,
-                                        );
-                                    }));
+                                observe(|| {
+                                    callback(
+                                        crate::state::ConnectionState::Connected,
+                                        crate::state::ConnectionState::Disconnected,
+                                    );
+                                });
                             }
                             // Saturating: with unlimited attempts the loop may outlive a u32.
                             // A count that no longer fits exceeds every configured maximum.
@@ -180,24 +188,20 @@ where
                                 #[cfg(feature = "tracing")]
                                 if let Some(ref callback) = this.config.on_state_change {
                                     // Callbacks only observe: a panic in one must not change the call's outcome
-                                    let _ = std::panic::catch_unwind(std::panic::AssertUnwindSafe(
-                                        || {
-                                            callback(
-                                                crate::state::ConnectionState::Disconnected,
-                                                crate::state::ConnectionState::Reconnecting,
-                                            );
-                                        },
-                                    ));
+                                    observe(|| {
+                                        callback(
+                                            crate::state::ConnectionState::Disconnected,
+                                            crate::state::ConnectionState::Reconnecting,
+                                        );
+                                    });
                                 }
 
                                 #[cfg(feature = "tracing")]
                                 if let Some(ref callback) = this.config.on_reconnect {
                                     // Callbacks only observe: a panic in one must not change the call's outcome
-                                    let _ = std::panic::catch_unwind(std::panic::AssertUnwindSafe(
-                                        || {
-                                            callback(*this.attempt);
-                                        },
-                                    ));
+                                    observe(|| {
+                                        callback(*this.attempt);
+                                    });
                                 }
 
                                 this.phase.set(Phase::Sleeping(tokio::time::sleep(delay)));
